@@ -431,6 +431,15 @@ func (x *tr) stmts(list []ast.Stmt, fall string, ind string) string {
 		}
 		return out + next()
 	case *ast.AssignStmt:
+		if len(v.Lhs) == 2 && len(v.Rhs) == 1 {
+			// comma-ok form / two-result call: the right-hand side is a pair
+			a, ok1 := v.Lhs[0].(*ast.Ident)
+			b, ok2 := v.Lhs[1].(*ast.Ident)
+			if !ok1 || !ok2 {
+				return x.errf("assignment %s", x.src(v))
+			}
+			return "let (" + x.pat(a.Name) + ", " + x.pat(b.Name) + ") := " + x.expr(v.Rhs[0]) + "\n" + ind + next()
+		}
 		if len(v.Lhs) != len(v.Rhs) {
 			return x.errf("assignment %s", x.src(v))
 		}
@@ -589,6 +598,13 @@ func (x *tr) panicTerm() string {
 		return "GoLib.Step.ret none"
 	}
 	return "none"
+}
+
+func (x *tr) pat(name string) string {
+	if name == "_" {
+		return "_"
+	}
+	return x.ident(name)
 }
 
 func (x *tr) skipped(c *ast.CallExpr) bool {
